@@ -64,7 +64,8 @@ func (w *Proxy) checkC09Quiescent() {
 			s.Violate("C09", "idle_exceeds_total", "pool %s: idle=%d total=%d", a, idle, total)
 		}
 		// every client the pool counts is an open connection or a connect in progress
-		if int(total) != live+w.N.PendingDials(a) {
+		// (the HTTP/1 pool counts a connect in progress, the ping-pong pool counts it once established)
+		if int(total) < live || int(total) > live+w.N.PendingDials(a) {
 			s.Violate("C09", "total_vs_network", "pool %s: total client count %d, but the network has %d live connection(s) and %d connect(s) in progress (idle=%d)", a, total, live, w.N.PendingDials(a), idle)
 		}
 	}
@@ -75,6 +76,13 @@ func (w *Proxy) checkC09Idle() {
 	for _, u := range w.h1ups {
 		if u.MaxInFlight > 1 || u.ReqAfterAbandon > 0 {
 			s.Violate("C09", "pingpong_not_exclusive", "upstream connection c%d to %s received a request while the previous exchange on it had not completed (%d times)", u.Conn.ID, u.Host, u.ReqAfterAbandon)
+		}
+	}
+	if w.P.Proto == ppName {
+		for _, u := range w.ups {
+			if u.MaxInFlight > 1 {
+				s.Violate("C09", "pingpong_not_exclusive", "ping-pong upstream connection c%d to %s carried %d requests at once", u.Conn.ID, u.Host, u.MaxInFlight)
+			}
 		}
 	}
 	for _, a := range w.hostAddrs {
